@@ -2,6 +2,7 @@ package sidecarsim
 
 import (
 	"fmt"
+	"runtime"
 	"strings"
 	"sync"
 	"testing"
@@ -37,4 +38,21 @@ func InBubble(t *testing.T, f func()) (problem string) {
 		f()
 	})
 	return ""
+}
+
+// WithParserWorkers runs f with n OS-level processors and n VictoriaMetrics
+// unmarshal workers (the pool is sized from GOMAXPROCS when it starts, and the
+// simulator's workers run at GOMAXPROCS=1, which would leave a single worker
+// and no parallelism inside the parser callback). Must be called inside the
+// bubble of InBubble with no scrape in flight.
+func WithParserWorkers(n int, f func()) {
+	old := runtime.GOMAXPROCS(n)
+	common.StopUnmarshalWorkers()
+	common.StartUnmarshalWorkers()
+	defer func() {
+		runtime.GOMAXPROCS(old)
+		common.StopUnmarshalWorkers()
+		common.StartUnmarshalWorkers()
+	}()
+	f()
 }
